@@ -109,12 +109,32 @@ NEEDS.update({
  "R6_C11_2":"the debug-assertion profile and any operation on the result of negating a boxed zero",
  "R6_C11_3":"the debug-assertion profile and the U3584 width only (ArrayEncoding / DER)",
 })
+NEEDS.update({
+ "R7_C08_1":"MontyParams::new_vartime / impl_modulus! (R^2 through rem_wide_vartime) for a modulus of the shape 2^k+1 with whole zero high limbs (2^128+1 in U192, 2^160+1 in U256): the Knuth D6 add-back branch",
+ "R7_C08_2":"a forged ConstMontyForm record whose payload is exactly the modulus (range check <= instead of <)",
+ "R7_C08_3":"conditional selection (choice = 1) between Montgomery forms of two DIFFERENT moduli of the same width, one full-width and one with leading zeros, followed by an addition that carries (two cooperating edits)",
+ "R7_C11_1":"BoxedUint::mul of two operands of at least 33 limbs whose smaller limb count is odd (boxed Karatsuba tail)",
+ "R7_C11_2":"BoxedUint::rem_vartime / BoxedMontyParams::new_vartime with a modulus whose value fits one limb but is stored at two or more limbs",
+ "R7_C11_3":"Uint::split_mul / checked_mul with a U1024, U2048, U4096 or U8192 left operand and a right operand of a different width",
+ "R7_C12_1":"a hex record with a back-tick (an 'a' with its lowest bit flipped) handed to Odd::from_{be,le}_hex",
+ "R7_C12_2":"Clone::clone_from on a NonZero<BoxedUint> / Odd<BoxedUint> from a wider source whose low limbs are zero (two cooperating edits)",
+ "R7_C12_3":"a human-readable deserializer: Uint decoded big-endian there while serialization stays little-endian, so Odd / NonZero records are byte-reversed",
+ "R7_C16_1":"a hex record with a non-hex character in the LOW nibble of a byte after a valid high nibble (two cooperating edits narrowing the error marker to 8 bits)",
+ "R7_C16_2":"BoxedUint::from_be_slice with bits_precision not a multiple of 8 and a record shorter than ceil(precision/8) whose first octet has high bits set",
+ "R7_C16_3":"Uint::split_mixed with uneven halves (U192 -> (U64, U128))",
+ "R7_C18_1":"an INTEGER longer than the type through TryFrom<UintRef> / TryFrom<AnyRef> (two cooperating edits: the capacity check moved into decode_value)",
+ "R7_C18_2":"an RLP payload of BYTES+1..32 octets for U64 / U128 / U192 (padded into a U256 buffer and narrowed with resize)",
+ "R7_C18_3":"an RLP record cut right after a prefix octet 0x81..=0xb7 (is_int() pre-check indexes bytes[1])",
+ "R7_C19_1":"a modulus of three or more limbs and a candidate that ties with the modulus' top limb (tie-break walks the low limbs in the wrong order)",
+ "R7_C19_2":"infallible BoxedUint::random_mod with a single-limb modulus: different stream consumption than Uint::random_mod / try_random_mod from the second call or first rejection on",
+ "R7_C19_3":"an RNG that yields two all-zero candidates in a row to NonZero::try_random",
+})
 os.makedirs("/verif/seeded", exist_ok=True)
 rows=[]
 for name, needs in NEEDS.items():
     parts = name.split("_")
     prop, i = parts[-2], parts[-1]
-    src=f"/tmp/wt2_{prop}/seeded_out/{i}" if name.startswith("R2_") else (f"/tmp/wt3_{prop}/seeded_out/{i}" if name.startswith("R3_") else (f"/tmp/wt4_{prop}/seeded_out/{i}" if name.startswith("R4_") else (f"/tmp/wt5_{prop}/seeded_out/{i}" if name.startswith("R5_") else f"/tmp/wt6_{prop}/seeded_out/{i}" if name.startswith("R6_") else f"/tmp/wt_{prop}/seeded_out/{i}")))
+    src=f"/tmp/wt2_{prop}/seeded_out/{i}" if name.startswith("R2_") else (f"/tmp/wt3_{prop}/seeded_out/{i}" if name.startswith("R3_") else (f"/tmp/wt4_{prop}/seeded_out/{i}" if name.startswith("R4_") else (f"/tmp/wt5_{prop}/seeded_out/{i}" if name.startswith("R5_") else f"/tmp/wt6_{prop}/seeded_out/{i}" if name.startswith("R6_") else f"/tmp/wt7_{prop}/seeded_out/{i}" if name.startswith("R7_") else f"/tmp/wt_{prop}/seeded_out/{i}")))
     res_p=f"/tmp/seed_logs/{name}.json"
     if not (os.path.isdir(src) and os.path.exists(res_p)):
         if not os.path.exists(f"/verif/seeded/{name}/meta.json"): print("missing", name)
@@ -142,8 +162,8 @@ for name, needs in NEEDS.items():
       "caught_by":caught,
       "first_violations_reported":first,
     }
-    if name.startswith("R6_"):
-        meta["written_by"]="independent sub-agent given the property text, a scratch worktree, and (round 6 only) a list of the kinds of change earlier rounds had already tried, so that it would look elsewhere; nothing from /verif"
+    if name.startswith("R6_") or name.startswith("R7_"):
+        meta["written_by"]="independent sub-agent given the property text, a scratch worktree, and (rounds 6 and 7) a list of the kinds of change earlier rounds had already tried, so that it would look elsewhere; nothing from /verif"
         meta["confirmed_by_me"]["worktree"]=meta["confirmed_by_me"]["worktree"].replace("/tmp/wt_eval ","/tmp/wt_eval or /tmp/wt_eval2 ")
     old_p=os.path.join(dst,"meta.json")
     if os.path.exists(old_p):
